@@ -7,6 +7,7 @@ engine/qbrewrite.cc in a behaviour-preserving way:
   incr     x++; / x--;  ->  x += 1; / x -= 1;          (statement level and for-increments)
   notzero  !x  ->  ((x) == 0)
   zeronot  x == 0 / x == NULL  ->  !(x)
+  trace    a harmless libc call, (void)strlen(""), at the start of every function and in front of every returned value
 The checks must give the same verdict on the copy (run with QB_REPO=<dest>).  Units that no longer parse after the rewrite
 are restored (reported)."""
 import os, subprocess, sys, shutil
